@@ -37,7 +37,7 @@ def rand_shape(rng, ndim, max_len=13, max_total=4096, p_len1=0.12):
             return tuple(shp)
 
 
-def rand_data(rng, shape, dtype, small=False):
+def rand_data(rng, shape, dtype, small=False, families=True):
     """Non-constant data of the given dtype.  Integer magnitudes are bounded so that exact block sums
     fit into int64; `small` keeps |values| <= 7 (used where linear combinations must stay in range)."""
     dt = np.dtype(dtype)
@@ -57,6 +57,8 @@ def rand_data(rng, shape, dtype, small=False):
         a = ((rng.normal(size=n) + 1j * rng.normal(size=n)) * sc).astype(dt)
     if n > 1 and len(np.unique(a)) < 2:
         a[0] = a[0] + dt.type(1)
+    if dt.kind in "fc" and families:
+        a, _ = scale_family(rng, a)
     return a.reshape(shape)
 
 
@@ -82,3 +84,151 @@ def rand_calibration(rng, ndim, form=None):
 
 def parity_pattern(shape):
     return "".join("1" if n == 1 else ("o" if n % 2 else "e") for n in shape)
+
+
+# ------------------------------------------------------------------------------------------------
+# widening helpers: memory layouts, scale families, process-global state, neutral calls
+
+LAYOUTS = ["c", "c", "c", "fortran", "permuted", "strided", "negative_stride", "interior_view", "readonly", "readonly_fortran"]
+
+
+def layout(rng, a, form=None):
+    """the same values in another memory layout / ownership; returns (array, form)"""
+    form = form or LAYOUTS[int(rng.integers(len(LAYOUTS)))]
+    if form == "c" or a.ndim == 0:
+        return np.ascontiguousarray(a).copy(), "c"
+    if form == "fortran":
+        return np.asfortranarray(a).copy(order="F"), form
+    if form == "permuted":
+        perm = [int(x) for x in rng.permutation(a.ndim)]
+        inv = np.argsort(perm)
+        return np.ascontiguousarray(a.transpose(perm)).transpose(inv), form
+    if form == "strided":
+        big = np.zeros(tuple(2 * n for n in a.shape), dtype=a.dtype)
+        sl = tuple(slice(None, None, 2) for _ in a.shape)
+        big[sl] = a
+        return big[sl], form
+    if form == "negative_stride":
+        return a[::-1].copy()[::-1], form
+    if form == "interior_view":
+        big = np.zeros(tuple(n + 3 for n in a.shape), dtype=a.dtype)
+        sl = tuple(slice(1, n + 1) for n in a.shape)
+        big[sl] = a
+        return big[sl], form
+    out = np.asfortranarray(a).copy(order="F") if form == "readonly_fortran" else a.copy()
+    out.flags.writeable = False
+    return out, form
+
+
+def scale_family(rng, a):
+    """float / complex data in one of the scale families; returns (array of the same dtype, family name)"""
+    dt = a.dtype
+    if dt.kind not in "fc":
+        return a, "plain"
+    u = rng.random()
+    if u < 0.7:
+        return a, "plain"
+    single = dt in (np.dtype("float32"), np.dtype("complex64"))
+    m = float(np.max(np.abs(a))) or 1.0
+    if u < 0.8:
+        return (a / dt.type(m) * dt.type(1e8)).astype(dt), "amplitude_1e+8"
+    if u < 0.9:
+        return (a / dt.type(m) * dt.type(1e-8)).astype(dt), "amplitude_1e-8"
+    ped = 10.0 ** rng.uniform(3, 6) if single else 10.0 ** rng.uniform(9, 12)
+    out = (a.astype(np.complex128 if dt.kind == "c" else np.float64) / m + ped).astype(dt)
+    if out.size > 1 and len(np.unique(out)) < 2:
+        out.flat[0] = out.flat[0] * dt.type(1.001)
+    return out, "pedestal"
+
+
+GSTATES = ["none", "none", "none", "none", "numpy_errstate_raise", "torch_default_float64_no_grad", "numpy_printoptions", "quantem_config_float64"]
+
+
+class state_ctx:
+    """process-global state a user may have set, applied around one library call and restored afterwards"""
+
+    def __init__(self, name):
+        self.name = name or "none"
+        self.undo = []
+
+    def __enter__(self):
+        n = self.name
+        if n == "numpy_errstate_raise":
+            old = np.seterr(over="raise", divide="raise", invalid="raise")
+            self.undo.append(lambda: np.seterr(**old))
+        elif n == "torch_default_float64_no_grad":
+            import torch
+
+            old_dt, old_g = torch.get_default_dtype(), torch.is_grad_enabled()
+            torch.set_default_dtype(torch.float64)
+            torch.set_grad_enabled(False)
+            self.undo.append(lambda: (torch.set_default_dtype(old_dt), torch.set_grad_enabled(old_g)))
+        elif n == "numpy_printoptions":
+            old = np.get_printoptions()
+            np.set_printoptions(precision=1, threshold=3, edgeitems=1, suppress=True)
+            self.undo.append(lambda: np.set_printoptions(**old))
+        elif n == "quantem_config_float64":
+            from quantem.core import config
+
+            old = {k: config.get(k) for k in ("dtype_real", "dtype_complex", "precision")}
+            config.set({"dtype_real": "float64", "dtype_complex": "complex128", "precision": "float64"})
+            self.undo.append(lambda: config.set(old))
+        return self
+
+    def __exit__(self, *exc):
+        while self.undo:
+            self.undo.pop()()
+        return False
+
+
+def install_state_wrappers(Dataset, ctx, names=("copy", "pad", "crop", "bin", "fourier_resample", "__getitem__")):
+    """every call of the named public methods runs under ctx.state['gstate'] (outermost wrapper; restores on exceptions too)"""
+    import functools
+
+    for name in names:
+        orig = Dataset.__dict__.get(name)
+        if orig is None or isinstance(orig, (classmethod, staticmethod)):
+            ctx.hooks_missing.append("Dataset.%s (state wrapper)" % name)
+            continue
+
+        def make(orig=orig):
+            @functools.wraps(orig)
+            def wrapper(*a, **k):
+                st = ctx.state.get("gstate", "none")
+                if st == "none":
+                    return orig(*a, **k)
+                ctx.counters["gstate_call:" + st] += 1
+                with state_ctx(st):
+                    return orig(*a, **k)
+
+            return wrapper
+
+        setattr(Dataset, name, make())
+
+
+NEUTRAL_CALLS = ["repr", "str", "copy_discarded", "reads", "reductions", "index_discarded", "calibration_read_write_back"]
+
+
+def neutral_call(rng, ds, which=None):
+    """a call that must not change the dataset (neutral on the unchanged tree); returns its name"""
+    which = which or NEUTRAL_CALLS[int(rng.integers(len(NEUTRAL_CALLS)))]
+    if which == "repr":
+        repr(ds)
+    elif which == "str":
+        str(ds)
+    elif which == "copy_discarded":
+        ds.copy()
+    elif which == "reads":
+        _ = (ds.shape, ds.ndim, ds.dtype, ds.device, ds.name, ds.signal_units, ds.metadata, ds.file_path, ds.origin, ds.sampling, ds.units)
+    elif which == "reductions":
+        if ds.array.size:
+            ds.mean()
+            ds.max()
+            ds.min(axes=0)
+    elif which == "index_discarded":
+        ds[...]
+    else:
+        ds.origin = ds.origin
+        ds.sampling = ds.sampling
+        ds.units = ds.units
+    return which
